@@ -6,6 +6,9 @@ from . import sessgen as G
 RULE = ("ss: frame sequences built by hand and injected as raw bytes (random fragmentation) into a real server Session "
         "and a real client Session: valid sessions mutated by swapping ids, stale ids after FIN, ids never opened, id "
         "reuse after FIN, duplicated SYN for an open id, interleaved SYN/PSH/FIN/SYNACK of 2-6 ids, unknown commands, "
+        "late Stream::send_data (forwarding-task path) on a stream whose FIN already arrived followed by send_data on "
+        "the other streams and on a stream opened later (both roles, both directions), a single 65536..70000-byte "
+        "chunk on stream A whose content is a well-formed frame sequence for stream B (PSH/FIN/SYN/SYNACK + Waste), "
         "Settings/Heartbeat frames in between; every payload byte of stream b is tag(b) = (b*29+7) mod 256 (ids chosen "
         "with distinct tags); after the sequence every stream object ever handed out is read to the end. Oracle: "
         "PipeRef + tag check: every byte read on an object of id b carries tag(b), is exactly what was addressed to b "
@@ -112,6 +115,81 @@ def build(r, cid, tier, side):
     return G.ss_case(cid, 0, False, ops, "inject-" + ("server" if side == "s" else "client"), nt)
 
 
+def tagged(b, n):
+    return hx(bytes([tag(b)]) * n)
+
+
+def build_late_send(r, cid, w):
+    """two or three streams; the peer's FIN for A arrives at side w; w's local user keeps calling send_data on A
+    (the forwarding-task path), then on B and on a stream opened later: everything submitted on the other
+    streams must arrive, in both directions"""
+    o = "s" if w == "c" else "c"
+    ns = r.randint(2, 3)
+    ops = ["O:c"] * ns + ["X:c:-", "N:s"]
+    a = r.randint(1, ns)
+    b = r.choice([x for x in range(1, ns + 1) if x != a])
+    if r.random() < 0.6:                       # data queued for A before its FIN
+        for _ in range(r.randint(1, 3)):
+            ops.append("U:%s:%d:0:%s" % (o, a, tagged(a, r.randint(1, 20))) if r.random() < 0.5 else "P:%s:%d:%s" % (o, a, tagged(a, r.randint(1, 20))))
+    if r.random() < 0.5:
+        ops.append("U:%s:%d:0:%s" % (w, b, tagged(b, r.randint(1, 20))))
+    ops += ["G:%s:3:%d:-" % (o, a), "X:%s:%s" % (o, r.choice(["-", "3,4,0", "1"])), "T:%s" % w]
+    for _ in range(r.randint(1, 3)):           # late sends on the finished stream: pump path
+        ops.append("U:%s:%d:0:%s" % (w, a, tagged(a, r.randint(0, 20))))
+    for _ in range(r.randint(1, 4)):           # ... must not hurt B
+        ops.append("U:%s:%d:0:%s" % (w, b, tagged(b, r.randint(1, 30))))
+        if r.random() < 0.3:
+            ops.append("U:%s:%d:0:%s" % (w, a, tagged(a, r.randint(1, 5))))
+    newid = None
+    if r.random() < 0.6:                       # a stream opened later
+        newid = ns + 1
+        ops += ["O:c", "X:c:-", "N:s", "U:%s:%d:0:%s" % (w, newid, tagged(newid, r.randint(1, 30)))]
+    ops.append("U:%s:%d:0:%s" % (o, b, tagged(b, r.randint(1, 30))))      # the other direction on B
+    ops += ["X:%s:%s" % (w, r.choice(["-", "3,4,0", "7,0", "1"])), "X:%s:-" % o]
+    for sid in range(1, ns + 2):
+        ops += ["D:%s:%d:0:64" % (o, sid)] * 4
+        ops += ["D:%s:%d:0:64" % (w, sid)] * 3
+    ops += ["T:c", "T:s", "L:%s" % w]
+    return G.ss_case(cid, r.choice([0, 2]), False, ops, "late-send-after-fin-" + ("client" if w == "c" else "server"), True)
+
+
+def smuggle_content(r, b, newid, total):
+    """a byte string that is itself a well-formed frame sequence: PSH frames for stream b (tagged), a FIN for b,
+    a SYN and a SYNACK for other ids, then Waste frames up to `total` bytes"""
+    parts = [G.enc(G.CMD_PSH, b, bytes([tag(b)]) * r.randint(1, 40)) for _ in range(r.randint(1, 3))]
+    parts.append(G.enc(G.CMD_FIN, b))
+    parts.append(G.enc(G.CMD_SYN, newid))
+    parts.append(G.enc(G.CMD_SYNACK, b, b"smuggled"))
+    parts.append(G.enc(G.CMD_PSH, b, bytes([tag(b)]) * 5))
+    body = b"".join(parts)
+    while len(body) < total:
+        rest = total - len(body)
+        if rest < 7:
+            body += bytes(rest)           # an incomplete header of zeros at the very end
+            break
+        n = min(rest - 7, 60000)
+        body += G.enc(0, 0, bytes(n))
+    return body
+
+
+def build_smuggle(r, cid, w, total=None):
+    """stream A carries, as ONE chunk of 65536..70000 bytes, content that is a frame sequence addressed to the
+    other open stream B: nothing of it may appear on / end / disturb B or open anything"""
+    o = "s" if w == "c" else "c"
+    a, b = r.sample([1, 2], 2)
+    total = total or r.choice([65536, 65536, 65537, 65543, 66000, 70000, r.randint(65536, 70000)])
+    body = smuggle_content(r, b, 77, total)
+    ops = ["O:c", "O:c", "X:c:-", "N:s"]
+    ops.append("U:%s:%d:0:%s" % (w, b, tagged(b, 3)))
+    ops.append(("P:%s:%d:%s" % (w, a, hx(body))) if r.random() < 0.5 else ("U:%s:%d:0:%s" % (w, a, hx(body))))
+    ops.append("U:%s:%d:0:%s" % (w, b, tagged(b, 2)))
+    ops += ["X:%s:%s" % (w, r.choice(["-", "3,4,0", "65542,0", "8192"])), "N:s", "T:%s" % o, "Y:c:%d:0" % b]
+    ops += ["D:%s:%d:0:64" % (o, b)] * 4
+    ops += ["D:%s:%d:0:100000" % (o, a)] * 4
+    ops += ["U:%s:%d:0:%s" % (w, b, tagged(b, 4)), "X:%s:-" % w, "D:%s:%d:0:64" % (o, b), "D:%s:%d:0:64" % (o, b), "T:c", "T:s"]
+    return G.ss_case(cid, r.choice([0, 2]), False, ops, "frames-inside-a-64k-chunk-" + ("c2s" if w == "c" else "s2c"), True)
+
+
 def kernel_perms(tier):
     """all orders of a 5-frame kernel over two ids on a server"""
     import itertools
@@ -134,6 +212,10 @@ def gen_cases(tier, seed):
     for i in range(n):
         cs.append(build(r, "i%d" % i, tier, "s" if i % 3 else "c"))
     cs += kernel_perms(tier)
+    for i in range(60 if tier == "quick" else 1200):
+        cs.append(build_late_send(r, "ls%d" % i, "cs"[i % 2]))
+    for i in range(8 if tier == "quick" else 60):
+        cs.append(build_smuggle(r, "sm%d" % i, "cs"[i % 2]))
     return cs
 
 
